@@ -14,6 +14,7 @@ TEXT = {
  'C06': ("Tree jobs with the children / inner source observed on their own: in a ConcatSource every character keeps the (file, content, line, column, name) its child gives it; in a ReplaceSource every output character is compared with an independent re-statement of the rule (inner segment's file/line/name, column advanced only where the recorded content matches, replacement content at the location active at its start with its own or the inherited, translated, name). Found the untranslated-name defect (fixed).", "DESIGN.md 5 C06"),
  'C07': ("Tree jobs restricted to the content views: on every path rope() must render to source(), buffer() be its bytes, size() its length, to_writer() write exactly buffer(); a writer that fails after a symbolic number k of bytes must get its error back with only a prefix of buffer() written. ConcatSource's four loops over children and ReplaceSource's rope()/source() splices are interpreted from MIR.", "DESIGN.md 5 C07"),
  'C08': ("SourceMapSource leaves whose map is a mapping-string template with symbolic VLQ digits (assumed consistent with the text): the four stream_chunks_of_source_map_* functions, WithIndices and get_source are interpreted from MIR; on every path the attribution of every character (per line, names dropped, for columns=false) through the stream, through map() and through an enclosing ConcatSource must equal a lookup in the given map decoded by an independent decoder, with sourceRoot applied; declared sources/contents/names must be the map's.", "DESIGN.md 5 C08"),
+ 'C10': ("CachedSource (map, stream_chunks with both fill paths and the replay path, stream_and_get_source_and_map, clone, hash) is interpreted from MIR over real inner sources; the call history is symbolic - each slot's operation is picked by the solver - and after every history all observations are compared with the wrapped source alone on every path. A result cached under one option set being served for another, or a cache fill changing a later answer, is a satisfying assignment.", "DESIGN.md 5 C10"),
  'C11': ("Tree jobs: every stream announces source/name indices before use and densely from zero; every map() result is decoded with an independent decoder and must be strictly increasing, on lines >= 1, before the end of source(), with indices inside the tables and a base64/,/; alphabet. Codec jobs: the alphabet and ASCII-ness of every encoder output for all values in the bound.", "DESIGN.md 5 C11"),
  'C13': ("Pairs of equivalent compositions over the SAME symbolic text are built in one symbolic state (nested boxed vs flat ConcatSource; single-child / empty-children ConcatSource, boxing, ReplaceSource without replacements vs the wrapped source) and compared on every path: text, end info, per-position attribution through map() and through the chunk stream.", "DESIGN.md 5 C13"),
  'C12': ("Bounded symbolic execution of the real encoder/decoder MIR: decode(encode(M)) attributes every position as M, encode(decode(s)) == s, encode_vlq is the v3 VLQ spelling for all deltas < 2^30, the decoder equals an independent v3 semantics on shape-concrete strings with all digits symbolic, the lines-only encoder keeps the first mapped segment per line.", "DESIGN.md 5 C12"),
